@@ -20,73 +20,12 @@ struct Case {
 const char *vf_property() { return "C12"; }
 void vf_init() {}
 
-static std::vector<ga::Set> gen_history(const ga::AppSpec &spec, int maxlen) {
-  std::vector<ga::Set> h;
-  int n = vf::sized<int>(0, maxlen);
-  std::vector<int> targets = {0};
-  if (spec.has_sub) targets.push_back(1);
-  if (spec.has_psub && !spec.psub_null) targets.push_back(2);
-  if (spec.has_subs) { targets.push_back(3); targets.push_back(4); targets.push_back(5); }
-  for (int i = 0; i < n; i++) {
-    ga::Set s;
-    s.target = targets[(size_t)vf::pickn((int)targets.size())];
-    const std::vector<ga::PSpec> &ps = s.target == 0 ? spec.root : spec.sub;
-    if (ps.empty()) continue;
-    const ga::PSpec &p = ps[(size_t)vf::pickn((int)ps.size())];
-    s.field = p.field;
-    s.v = vf::chance(25) && p.has_default ? p.dflt[(size_t)vf::pickn(4)] : ga::gen_val(p.field, p);   // sometimes exactly a default
-    if (ga::kind_of(p.field) == ga::K_AINT || ga::kind_of(p.field) == ga::K_AFLOAT) s.idx = vf::pickn(4);
-    s.by_symbol = vf::coin();
-    h.push_back(s);
-  }
-  return h;
-}
-
 Case vf_generate() {
   Case c;
   c.spec = ga::gen_spec();
-  c.hist = gen_history(c.spec, 14);
+  c.hist = ga::gen_history(c.spec, 14);
   c.corrupt = vf::pickn(4);
   return c;
-}
-
-// apply a message to the model (field values only; same semantics as the application)
-static void model_apply(ga::App &m, const ga::Set &s) {
-  if (s.target == 0) {
-    ga::Val cur = ga::get_root(m.root, s.field);
-    if (s.idx >= 0) { if (ga::kind_of(s.field) == ga::K_AINT) cur.ai[(size_t)s.idx] = s.v.ai[(size_t)s.idx]; else cur.af[(size_t)s.idx] = s.v.af[(size_t)s.idx]; }
-    else cur = s.v;
-    ga::set_root(m.root, s.field, cur);
-    if (s.field == ga::PRESET) m.on_changed("/preset");
-  } else {
-    ga::Sub *sub = s.target == 1 ? &m.root.sub : s.target == 2 ? m.root.psub : &m.root.subs[s.target - 3];
-    if (!sub) return;
-    ga::Val cur = ga::get_sub(*sub, s.field);
-    if (s.idx >= 0) cur.ai[(size_t)s.idx] = s.v.ai[(size_t)s.idx]; else cur = s.v;
-    ga::set_sub(*sub, s.field, cur);
-  }
-}
-
-static std::string compare(ga::App &a, ga::App &b, bool only_saved_scope, const char *what) {
-  // only_saved_scope: skip ports without default and everything below disabled sub-trees (documented omissions)
-  for (auto &p : a.spec.root) {
-    if (only_saved_scope && !p.has_default) continue;
-    if (!ga::get_root(a.root, p.field).eq(ga::get_root(b.root, p.field), ga::kind_of(p.field)))
-      return std::string(what) + ": /" + ga::name_of(p.field) + " is " + ga::get_root(a.root, p.field).show(ga::kind_of(p.field)) + ", expected " + ga::get_root(b.root, p.field).show(ga::kind_of(p.field));
-  }
-  std::vector<ga::Sub *> sa = a.subs(), sb = b.subs();
-  std::vector<std::string> pre = a.sub_prefixes();
-  for (size_t k = 0; k < sa.size(); k++) {
-    bool by_en = (pre[k] == "/sub/" && a.spec.sub_en_by) || (pre[k] == "/psub/" && a.spec.psub_en_by) || (pre[k].compare(0, 5, "/subs") == 0 && a.spec.subs_en_by);
-    bool disabled = (by_en && !b.root.en) || (a.spec.self_on && !sb[k]->on);
-    for (auto &p : a.spec.sub) {
-      if (only_saved_scope && !p.has_default) continue;
-      if (only_saved_scope && disabled && !(p.field == ga::ON && a.spec.self_on && !(by_en && !b.root.en))) continue;
-      if (!ga::get_sub(*sa[k], p.field).eq(ga::get_sub(*sb[k], p.field), ga::kind_of(p.field)))
-        return std::string(what) + ": " + pre[k] + ga::name_of(p.field) + " is " + ga::get_sub(*sa[k], p.field).show(ga::kind_of(p.field)) + ", expected " + ga::get_sub(*sb[k], p.field).show(ga::kind_of(p.field));
-    }
-  }
-  return "";
 }
 
 static std::set<std::string> expected_saved(ga::App &m) {
@@ -137,8 +76,8 @@ std::string vf_run(const Case &c, vf::Ctx &ctx) {
     if (!p) continue;
     if (s.target == 2 && !app.root.psub) continue;
     app.dispatch(ga::encode_set(s, *p));
-    model_apply(model, s);
-    std::string e = compare(app, model, false, "after a parameter message the application state differs from the model (harness or port defect)");
+    ga::model_apply(model, s);
+    std::string e = ga::compare(app, model, false, "after a parameter message the application state differs from the model (harness or port defect)");
     if (!e.empty()) return e + " at message " + std::to_string(i) + D;
   }
   // (2) save: exactly the parameters that differ from their (preset-dependent) default
@@ -160,7 +99,7 @@ std::string vf_run(const Case &c, vf::Ctx &ctx) {
   ga::hook().fn = nullptr;
   if (rv != (int)lines.size()) return "load_from_file returns " + std::to_string(rv) + " for a savefile with " + std::to_string(lines.size()) + " message lines" + D + " | file=\"" + vf::esc(file) + "\"";
   {
-    std::string e = compare(fresh, model, true, "state after loading the savefile into a fresh instance");
+    std::string e = ga::compare(fresh, model, true, "state after loading the savefile into a fresh instance");
     if (!e.empty()) return e + D + " | file=\"" + vf::esc(file) + "\"";
   }
   // (4) rejections
